@@ -177,7 +177,7 @@ def case_table(run, i):
             if not _hmm_ok(cols, cfg["skip_low"], cfg["min_weight"]):
                 run.extra["hmm-skipped-no-autosome-survivors"] += 1
                 continue
-        cna = make_cna(use, meta={"sample_id": "S"})
+        cna = make_cna(use, meta={"sample_id": "S"}, odd=(i % 3 == 1))
         run.case["method"], run.case["config"] = method, cfg
         try:
             S.do_segmentation(cna, method, skip_low=cfg["skip_low"], skip_outliers=cfg["skip_outliers"],
